@@ -635,7 +635,7 @@ def gen_eabf(r, k, T):
 def gen_runave(r, k, T):
     L = r.choice([2, 3, 4])
     cfg = cv_block(0, width=1.0, extra=["runAve on", "runAveLength %d" % L])
-    return {"fam": "runave", "tags": ["runAve", "length=%d" % L], "sigtags": [], "natoms": 1, "config": cfg,
+    return {"fam": "runave", "tags": ["runAve", "length=%d" % L], "sigtags": [], "collapse": "all", "natoms": 1, "config": cfg,
             "it0": 0, "pos": walk(r, T, 1, lo=-4, hi=4, bits=3), "prefix_per_run": True}
 
 
